@@ -6,7 +6,8 @@
 # Builds harness/ with `--features quic` into harness/target-quic, runs the C07 stream with every scenario over
 # QUIC, runs the extracted model (ocaml/build/C07/driver, built by ./check C07) on the same cases and prints
 # disagreements and oracle verdicts. Exit 0 iff implementation and model agree on every case and every prop_ok
-# failure lies in a known class.
+# failure lies in a known class (a suspect end-to-end scenario is confirmed by three solo replays first: real time).
+# With --quic 1 the loop-level cases (kind 3) drive the real QuicConnection::start as well.
 set -e
 V="$(cd "$(dirname "$0")/.." && pwd)"
 SEED=${1:-1}; CASES=${2:-1000}; EVERY=${3:-4}
@@ -23,26 +24,47 @@ grep -E "Finished" "$W/build.log" || true
     --out-cases "$W/q.cases" --out-trace "$W/q.impl"
 "$D" run < "$W/q.cases" > "$W/q.model"
 "$D" ok "$W/q.cases" "$W/q.impl" > "$W/q.ok"
-python3 - "$W" <<'PY'
-import sys
-w = sys.argv[1]
+python3 - "$W" "$V" "$D" <<'PY'
+import os, subprocess, sys
+w, v, drv = sys.argv[1], sys.argv[2], sys.argv[3]
 c = open(w + "/q.cases").read().splitlines(); t = open(w + "/q.impl").read().splitlines()
 m = open(w + "/q.model").read().splitlines(); ok = open(w + "/q.ok").read().split()
 bad = [i for i in range(len(c)) if t[i] != m[i]]
-fail = [i for i, v in enumerate(ok) if v == "0"]
+fail = [i for i, x in enumerate(ok) if x == "0"]
 quic = sum(1 for x in c if x.startswith("1 ") and ((int(x.split()[2]) >> 1) & 3) == 2)
-print("C07 quic stream: %d cases (%d QUIC scenarios), %d disagreements, %d oracle failures outside known classes, %d in known class" % (
-    len(c), quic, len(bad), len(fail), sum(1 for v in ok if v.startswith("k"))))
+loop = sum(1 for x in c if x.startswith("3 "))
+
+# The end-to-end scenarios run in real time (a step counts as settled after 200 ms of quiet): on a loaded machine a
+# late event shows up as a disagreement. A suspect end-to-end case (kind 1) is therefore run again, alone, three
+# times; it counts only if it fails again at least once. Report-level, back-pressure and loop-level cases (kinds
+# 0, 2, 3) do not depend on time and always count.
+def again(i):
+    rc_ = os.path.join(w, "retry.case")
+    open(rc_, "w").write("case: %s\n" % c[i])
+    for _ in range(3):
+        subprocess.run([os.path.join(v, "harness/target-quic/debug/verif-harness"), "c07", "--replay", rc_, "--quic", "1",
+                        "--out-cases", w + "/r.cases", "--out-trace", w + "/r.impl"], stderr=subprocess.DEVNULL)
+        rm = subprocess.run([drv, "run"], stdin=open(w + "/r.cases"), capture_output=True, text=True).stdout.splitlines()
+        ro = subprocess.run([drv, "ok", w + "/r.cases", w + "/r.impl"], capture_output=True, text=True).stdout.split()
+        ri = open(w + "/r.impl").read().splitlines()
+        if ri != rm or any(x == "0" for x in ro):
+            return True
+    return False
+
+suspects = sorted(set(bad + fail))
+confirmed = [i for i in suspects if not c[i].startswith("1 ") or again(i)]
+transient = [i for i in suspects if i not in confirmed]
+bad = [i for i in bad if i in confirmed]; fail = [i for i in fail if i in confirmed]
+print("C07 quic stream: %d cases (%d QUIC scenarios, %d QUIC loop-level cases), %d disagreements, %d oracle failures outside known classes, %d in known class, %d transient (end-to-end, not reproduced in three replays)" % (
+    len(c), quic, loop, len(bad), len(fail), sum(1 for x in ok if x.startswith("k")), len(transient)))
 for i in (bad + fail)[:5]:
     print("case:", c[i]); print("# impl: ", t[i]); print("# model:", m[i])
-if fail:
-    import os
-    v = os.path.dirname(os.path.dirname(w))
+if bad or fail:
     os.makedirs(os.path.join(v, "replays"), exist_ok=True)
     rp = os.path.join(v, "replays", "C07-quic.case")
-    i = fail[0]
-    open(rp, "w").write("# property C07 fails on this QUIC scenario (oracle prop_ok = false on the implementation's trace);\n"
-                        "# it needs the harness built with `--features quic`: harness/target-quic/debug/verif-harness c07 --replay <this file> ...\n"
+    i = (fail + bad)[0]
+    open(rp, "w").write("# property C07 fails on this QUIC case (disagreement with the model or oracle prop_ok = false on the implementation's trace);\n"
+                        "# it needs the harness built with `--features quic`: harness/target-quic/debug/verif-harness c07 --replay <this file> --quic 1 ...\n"
                         "case: %s\n# impl:  %s\n# model: %s\n" % (c[i], t[i], m[i]))
     print("STREAM-VIOLATION " + rp)
 sys.exit(1 if bad or fail else 0)
